@@ -3,7 +3,7 @@ import io
 import struct
 
 from gen.canon import unhx
-from models import m_magic
+from models import m_magic, m_marshal
 from vlib import common
 from vlib.xcanon import tree_diff, xcanon
 
@@ -50,6 +50,11 @@ def prepare(tier):
     return {"progs": common.datasets("progs", common.REFS, k), "consts": common.datasets("consts", common.REFS, tier)}
 
 
+INTERIM = {"3.7": [(3390, 12), (3391, 12), (3392, 16), (3393, 16)], "3.8": [(3410, 16), (3411, 16), (3412, 16)],
+           "3.9": [(3420, 16), (3421, 16), (3422, 16), (3423, 16), (3424, 16)]}
+OLD_LAYOUTS = [(1, 5), (1, 6), (2, 0), (2, 1), (2, 2)]
+
+
 def header_for(ver, magic_int):
     magic = struct.pack("<H", magic_int) + b"\r\n"
     ver = tuple(ver)
@@ -91,6 +96,33 @@ def cases(plan, tier, shard, nshards, host):
         if n % nshards == shard:
             yield {"kind": "corpus", "path": os.path.relpath(f, common.REPO)}
 
+    if not secondary:
+        # (v) pre-release magics whose file layout equals that of a release with an interpreter (CPython's registry): the
+        # release's programs under the pre-release magic and header.  3390/3391 still have the 12-byte header; 3410 is the
+        # magic that introduced co_posonlyargcount
+        for v, magics_ in sorted(INTERIM.items()):
+            for idx, rec in common.read_dataset(plan["progs"][v], shard, nshards):
+                if idx < 0 or not rec["id"].endswith("@module") or len(rec["pyc"]) > 3000:
+                    continue
+                payload = unhx(rec["pyc"])[rec["hdrlen"]:]
+                for mi, hdr_len in magics_:
+                    hdr = struct.pack("<H", mi) + b"\r\n" + (struct.pack("<III", 0, 0x5F000000, 0x1234) if hdr_len == 16 else struct.pack("<II", 0x5F000000, 0x1234))
+                    yield {"kind": "interim", "id": "%s|magic%d" % (rec["id"], mi), "ver": list(common.vt(v)), "tver": list(common.vt(v)), "pyc": hx(hdr + payload),
+                           "hdrlen": len(hdr), "tree": rec["tree"]}
+        # (vi) the layouts before 2.3 (16-bit counts; no free/cell variables before 2.1): Python 2.7 programs written in the old
+        # layout by the model's own writer (models/m_marshal.dump_tree), expected tree = the 2.7 tree restricted to the fields of
+        # that version.  The reader half of the model is validated on the real 1.5-2.2 corpus files; 2.0 has no corpus file
+        for idx, rec in common.read_dataset(plan["progs"]["2.7"], shard, nshards):
+            if idx < 0 or not rec["id"].endswith("@module") or len(rec["pyc"]) > 3000:
+                continue
+            for ov in OLD_LAYOUTS:
+                try:
+                    payload = m_marshal.dump_tree(rec["tree"], ov)
+                except (ValueError, struct.error, KeyError):
+                    continue    # a value the old layout cannot hold (a count beyond 16 bits, a frozenset ...)
+                hdr = struct.pack("<H", m_magic.FINAL[ov]) + b"\r\n" + struct.pack("<I", 0x5F000000)
+                yield {"kind": "relayout", "id": "%s|as%d.%d" % (rec["id"], ov[0], ov[1]), "ver": list(ov), "tver": list(ov), "pyc": hx(hdr + payload),
+                       "hdrlen": len(hdr), "tree": m_marshal.restrict_tree(rec["tree"], ov)}
     for v in common.REFS:
         src_ver = common.vt(v)
         # (ii) constant shapes: every encoding of the value grammar (dataset shared with C10), whole tree + consumption
